@@ -28,13 +28,15 @@ def sec_history_shards(tier, fn, all_scheds):
     for k in range(1, K + 1):
         seqs = list(SEC_EDITS) if k == 1 else (SEC_PAIRS if k == 2 else [a + b for a in SEC_PAIRS for b in "AZ"])
         full = (1 << (k + 1)) - 1
-        scheds = list(range(1, 1 << k)) if all_scheds else [0, full]
+        scheds = list(range(1, 1 << k)) if all_scheds else ([0, full] + ([1] if k >= 2 else []))
         if k == 3 and all_scheds:
             scheds = [1, 2, 4, 7]
         for ops in seqs:
             for sched in scheds:
                 for nb in nbs:
                     if k >= 2 and nb != nbs[0] and sched in (0, 2, 4):
+                        continue
+                    if k >= 2 and not all_scheds and sched == 1 and nb != nbs[-1]:
                         continue
                     out.append({"fn": fn, "consts": {"ops": ops, "sched": sched, "nb": nb}, "timeout": 900})
     return out
